@@ -1299,6 +1299,10 @@ val holds_C03_sgr : func -> vt -> bool
 
 val spec_emit : parser0 -> n -> func option
 
+val spec_feed : parser0 -> n -> parser0 * func option
+
+val spec_run : parser0 -> n list -> parser0 * func list
+
 val holds_C08 : vt -> func -> vt -> bool
 
 val holds_C13 : vt -> bool
